@@ -139,7 +139,7 @@ def main():
         ids = sys.argv[2:] or sorted(d for d in os.listdir(SEEDED) if os.path.isdir(os.path.join(SEEDED, d)))
         props = registered_props()
         results = {}
-        with cf.ThreadPoolExecutor(14) as ex:
+        with cf.ThreadPoolExecutor(5) as ex:
             for r in ex.map(lambda s: run_one(s, props), ids):
                 own = r["id"].split("-")[0]
                 status = "CAUGHT(own)" if own in r["fired"] else ("caught(other)" if r["fired"] else ("ERROR" if r["errors"] else "MISSED"))
